@@ -1,5 +1,5 @@
 #include "sim.h"
 extern const Profile *const g_profiles[];
 extern const int g_nprofiles;
-const Profile *const g_profiles[] = { &prof_deflate, &prof_oneshot, &prof_inflate, &prof_hdr, &prof_twin, &prof_reuse, &prof_ec, &prof_kern, &prof_cpu };
+const Profile *const g_profiles[] = { &prof_deflate, &prof_oneshot, &prof_inflate, &prof_hdr, &prof_twin, &prof_reuse, &prof_ec, &prof_kern, &prof_cpu, &prof_sched };
 const int g_nprofiles = sizeof(g_profiles) / sizeof(g_profiles[0]);
